@@ -96,6 +96,16 @@ func lin(w *World, v ssa.Value, name func(ssa.Value) string) linForm {
 		case token.SUB:
 			return linAdd(lin(w, b.X, name), lin(w, b.Y, name), -1)
 		case token.MUL:
+			if k, ok := intConst(b.X); ok {
+				if _, both := intConst(b.Y); !both {
+					x := lin(w, b.Y, name)
+					out := linForm{c: x.c * k, terms: map[string]int64{}}
+					for t, c := range x.terms {
+						out.terms[t] = c * k
+					}
+					return out
+				}
+			}
 			if k, ok := intConst(b.Y); ok {
 				x := lin(w, b.X, name)
 				out := linForm{c: x.c * k, terms: map[string]int64{}}
